@@ -276,8 +276,61 @@ def scenario(seq, V, c, decide, asg=None):
     return eqs
 
 
+FLATTEN_VARIANTS = ('auto', 'named-rows', 'explicit-identical', 'non-contiguous', 'database-method')
+
+
+def flatten_scenario(variant, decide):
+    """flattening of a panel table whose cells carry distinct tags (which cell ends up where is the whole question);
+    one earlier removal (solver-chosen row) leaves a gap in the row index"""
+    import math
+    import pandas as pd
+    from biogeme.tools.database import flatten_database
+    from biogeme.database import Database
+    ids = [7, 7, 3, 3, 3, 9] if variant != 'non-contiguous' else [7, 3, 7, 9, 3, 3]
+    rows = []
+    seen = {}
+    for r, i in enumerate(ids):
+        seen[i] = seen.get(i, 0) + 1
+        rows.append(dict(ID=float(i), AGE=100.0 + i, X=1000.0 + r, Y=2000.0 + r, T=float(10 * seen[i])))
+    df = pd.DataFrame(rows)
+    k = decide('row_removed_earlier', len(ids) + 1)
+    if k < len(ids):
+        df = df.drop(index=k)  # the row index keeps its gap
+    kept = [r for r in range(len(ids)) if r != k]
+    if variant == 'database-method':
+        data = Database('c13flat', df.sort_values('ID', kind='stable'))
+        data.panel('ID')
+        flat = data.generate_flat_panel_dataframe(save_on_file=False)
+    else:
+        flat = flatten_database(df, 'ID', row_name='T' if variant == 'named-rows' else None,
+                                identical_columns=['AGE'] if variant == 'explicit-identical' else None)
+    eqs = []
+    persons = sorted({ids[r] for r in kept})
+    eqs.append(('flatten: one row per individual', sorted(float(x) for x in flat.index), [float(p) for p in persons]))
+    for p_ in persons:
+        mine = [r for r in kept if ids[r] == p_]
+        line = flat.loc[float(p_)]
+        eqs.append((f'flatten: common column of an individual', float(line['AGE']), 100.0 + p_))
+        for n, r in enumerate(mine, start=1):
+            name = f'{n}' if variant != 'named-rows' else f'{rows[r]["T"]}'
+            for col, base in (('X', 1000.0), ('Y', 2000.0)):
+                colname = f'{name}_{col}'
+                eqs.append((f'flatten: value of observation n of an individual is found in column <n>_<column>',
+                            float(line[colname]) if colname in flat.columns else None, base + r))
+            if variant not in ('named-rows',):
+                colname = f'{name}_T'
+                eqs.append(('flatten: value of observation n of an individual is found in column <n>_<column>',
+                            float(line[colname]) if colname in flat.columns else None, rows[r]['T']))
+        # no value of another individual, nothing beyond the last observation
+        extra = [c_ for c_ in flat.columns if c_ != 'AGE' and c_.split('_')[0] not in
+                 [(f'{n}' if variant != 'named-rows' else f'{rows[r]["T"]}') for n, r in enumerate(mine, start=1)]]
+        eqs.append(('flatten: no value beyond the observations of the individual',
+                    all(isinstance(line[c_], float) and math.isnan(line[c_]) for c_ in extra), True))
+    return eqs
+
+
 def items_for(tier):
-    return [(name, seq) for name, seq in SEQUENCES.items()]
+    return [(name, seq) for name, seq in SEQUENCES.items()] + [(f'flatten/{v}', None) for v in FLATTEN_VARIANTS]
 
 
 def worker(item):
@@ -296,7 +349,7 @@ def worker(item):
             return v
         obs = []
         try:
-            eqs = scenario(seq, V, c, decide)
+            eqs = scenario(seq, V, c, decide) if seq is not None else flatten_scenario(name.split('/')[1], decide)
         except symx.PathAbort:
             raise
         except Exception as e:  # noqa: BLE001
@@ -334,7 +387,7 @@ def worker(item):
         res.error = f'Inconclusive: {e}'
         return res
     res.stats(st)
-    res.sample = dict(sequence=[list(map(str, op)) for op in seq], paths=st.paths)
+    res.sample = dict(sequence=[list(map(str, op)) for op in (seq or [(name,)])], paths=st.paths)
     done = {}
     import re
     for obs in results:
@@ -372,6 +425,16 @@ def concrete_run(case):
     """the same sequence on the real engine with concrete cells; the random choices are the recorded ones and the
     row-removal decisions follow from the concrete numbers"""
     from .c10 import DefaultDict
+    if case['sequence'].startswith('flatten/'):
+        bad = []
+        for k in range(7):
+            try:
+                eqs = flatten_scenario(case['sequence'].split('/')[1], lambda nm, n, k=k: min(k, n - 1))
+            except Exception as e:  # noqa: BLE001
+                bad.append(f'row {k} removed earlier: raises {type(e).__name__}: {str(e)[:150]}')
+                continue
+            bad += [f'{l}: {g!r} instead of {w!r} (row {k} removed earlier)' for l, g, w in eqs if g != w]
+        return dict(reproduced=bool(bad), detail='; '.join(bad[:3]) or 'flattened table as expected')
     asg = DefaultDict(case['values'])
     for i in range(N):
         asg[f'd_{i}_X']
@@ -420,10 +483,11 @@ def main(tier):
         PID, tier, items, worker,
         functions_encoded=['Database.remove / add_column / define_variable / scale_column / panel / build_panel_map / split '
                            '/ sample_with_replacement / sample_individual_map_with_replacement / extract_rows / count',
-                           'tools.database.count_number_of_groups'],
+                           'tools.database.count_number_of_groups / flatten_database', 'Database.generate_flat_panel_dataframe'],
         bounds=dict(rows=N, sequences={k: [op[0] for op in v] for k, v in SEQUENCES.items()}, folds=2,
-                    outside='flatten_database / generate_flat_panel_dataframe (groupby/apply hashes cell values: proxies '
-                            'would misrepresent equality), larger tables, k > 2 folds'),
+                    flatten='6-row panel tables with tagged cells (groupby hashes cell values, so cells carry distinct concrete '
+                            'tags instead of proxies), 5 variants x one earlier removal of any row',
+                    outside='larger tables, k > 2 folds'),
         stubs=['numpy.random of biogeme.database -> solver-chosen indices / permutations', 'pandas.DataFrame.sample -> '
                'solver-chosen permutation', 'cythonbiogeme -> verif.symengine (formula values per row)'],
         explanation='Bounded symbolic execution of operation sequences through real pandas on object columns; the '
